@@ -200,6 +200,7 @@ pub fn strategy(ctx: &Ctx) -> BoxedStrategy<Case> {
         jumps: true,
         exits: true,
         probes: true,
+        no_while: false,
     };
     let flags = proptest::collection::vec(proptest::sample::select(vec!["-e", "-u"]), 0..=2).prop_map(|v| {
         let mut v: Vec<String> = v.into_iter().map(String::from).collect();
